@@ -977,6 +977,8 @@ fn concretise_h1(c: &Value, code: &Value, lane: &Lane, rng: &mut Rng, allow_pipe
             "badname" => format!("{}: b\r\n", rng.pick(&["X/A", "X\"A", "", "X(A", "X@A", "X A", "X\u{e9}"])),
             "conn:close" => { names.push("connection".into()); format!("{}: {}\r\n", rng.pick(&["Connection", "connection"]), rng.pick(&["close", "Close"])) }
             "conn:keepalive" => { names.push("connection".into()); "Connection: keep-alive\r\n".to_string() }
+            "hop" => { let (n, v) = [("Keep-Alive", "timeout=5"), ("TE", "gzip"), ("TE", "trailers, deflate"), ("Proxy-Connection", "keep-alive"), ("Trailer", "X-T"), ("HTTP2-Settings", "AAMAAABkAAQAAP__")][rng.below(6)];
+                names.push(n.to_ascii_lowercase()); format!("{n}: {v}\r\n") }
             "cookie" => { names.push("cookie".into()); format!("{}: {}\r\n", rng.pick(&["Cookie", "cookie"]), rng.pick(&["a=b", "a=b; c=d", "a=b;c=d; e", "a=\"b c\"; SOZUBALANCEID=x"])) }
             other => format!("X-Unknown-Token: {other}\r\n"),
         };
@@ -1372,7 +1374,8 @@ fn replay(seed: u64, nlanes: usize, backend_kind: &'static str, variants: u64, d
                     // no answer within 2.5 s, or the harness could not attribute backend connections in time (machine
                     // overloaded): run the same probe again with a generous wait before anything is concluded
                     let mut again = 0;
-                    while (o.class == "hang" || o.bobs.anomalies.iter().any(|a| a.2 == "harness-barrier-timeout")) && again < 2 {
+                    // (bounded: when a broken tree makes many probes hang, the retries must not stretch the run)
+                    while (o.class == "hang" || o.bobs.anomalies.iter().any(|a| a.2 == "harness-barrier-timeout")) && again < 2 && n_retries.load(Ordering::Relaxed) < 40 {
                         again += 1;
                         n_retries.fetch_add(1, Ordering::Relaxed);
                         eprintln!("retry ({}) case={} how={} client={:?}/{:?} closed={} timed_out={}", o.class, case["c"], o.conc_desc, o.cobs.statuses, o.cobs.answered_by, o.cobs.closed, o.cobs.timed_out);
